@@ -22,7 +22,6 @@ from pynguin.instrumentation.version.common import (
     CheckedCoverageInstrumentationVisitorMethod,
     InstrumentationArgument,
     InstrumentationFastLoadTuple,
-    after,
 )
 
 # In Python 3.14 "LOAD_CONST None; RETURN_VALUE" is used again instead of "RETURN_CONST None"
@@ -283,7 +282,7 @@ class CheckedCoverageInstrumentation(python3_13.CheckedCoverageInstrumentation):
             "LOAD_FAST_BORROW_LOAD_FAST_BORROW",
         }:
             # Instrumentation after the original instruction
-            node.basic_block[after(instr_index)] = instructions
+            node.basic_block[node.after(instr_index)] = instructions
 
         return
 
